@@ -26,25 +26,30 @@ func b64IsURL(e *base64.Encoding) bool {
 	return e.EncodeToString([]byte{0xfb, 0xff}) [0:3] == "-_8"
 }
 
-// b64OkRe is the language of strings (over printable ASCII; Go additionally skips CR/LF)
-// that the encoding's DecodeString accepts.
-func b64OkRe(e *base64.Encoding) string {
+// b64OkTerm is the exact condition (over printable ASCII; Go additionally skips CR/LF) under which
+// the encoding's DecodeString accepts s: alphabet membership plus the length class. (The length
+// class is kept out of the regular expression: cvc5 answers unknown on (A^4)* style languages.)
+func b64OkTerm(e *base64.Encoding, s *Term) *Term {
 	a := reB64StdChar
 	if b64IsURL(e) {
 		a = reB64URLChar
 	}
-	a4 := "(re.++ " + a + " " + a + " " + a + " " + a + ")"
-	a3 := "(re.++ " + a + " " + a + " " + a + ")"
-	a2 := "(re.++ " + a + " " + a + ")"
 	if b64IsRaw(e) {
-		return `(re.++ (re.* ` + a4 + `) (re.union (str.to_re "") ` + a2 + ` ` + a3 + `))`
+		return mkAnd(mkInRe(s, "(re.* "+a+")"), mkNot(mkEq(mkApp("mod", SInt, mkLen(s), mkInt(4)), mkInt(1))))
 	}
-	return `(re.++ (re.* ` + a4 + `) (re.union (str.to_re "") (re.++ ` + a2 + ` (str.to_re "==")) (re.++ ` + a3 + ` (str.to_re "="))))`
+	// padded: length multiple of four, at most two trailing '='
+	body := "(re.++ (re.* " + a + `) (re.union (str.to_re "") (str.to_re "=") (str.to_re "==")))`
+	l := mkLen(s)
+	pad2 := mkSuffixOf(mkStr("=="), s)
+	pad1 := mkSuffixOf(mkStr("="), s)
+	_ = pad1
+	return mkAnd(mkInRe(s, body), mkEq(mkApp("mod", SInt, l, mkInt(4)), mkInt(0)),
+		mkImplies(pad2, mkLe(mkInt(4), l)))
 }
 
 // b64EncodeAxioms constrains r = enc(x).
 func b64EncodeAxioms(m *Machine, e *base64.Encoding, n string, x, r *Term) {
-	m.assume(mkInRe(r, b64OkRe(e)))
+	m.assume(b64OkTerm(e, r))
 	if b64IsRaw(e) {
 		lr3 := mkMul(mkLen(r), mkInt(3))
 		lx4 := mkMul(mkLen(x), mkInt(4))
@@ -55,7 +60,7 @@ func b64EncodeAxioms(m *Machine, e *base64.Encoding, n string, x, r *Term) {
 
 // b64DecodeAxioms makes the decodability predicate of s exact.
 func b64DecodeAxioms(m *Machine, e *base64.Encoding, n string, s, ok *Term) {
-	m.assume(mkEq(ok, mkInRe(s, b64OkRe(e))))
+	m.assume(mkEq(ok, b64OkTerm(e, s)))
 }
 
 // b64DecodedAxioms constrains d = dec(s) for decodable s.
@@ -83,7 +88,7 @@ func (m *Machine) b64NoteDecoded(e *base64.Encoding, n string, s *Term) {
 			return
 		}
 	}
-	ok := func(t *Term) *Term { return mkInRe(t, b64OkRe(e)) }
+	ok := func(t *Term) *Term { return b64OkTerm(e, t) }
 	dec := func(t *Term) *Term { return mkUF(n+"_dec", SStr, t) }
 	for _, o := range m.ghost[key] {
 		a := o.(*Term)
